@@ -36,6 +36,9 @@ Classify(r) ==
        IF r.abort /\ r.op.k \in FullIterKinds /\ HasEmptyRow(X) THEN "C11-fulliter-emptyrow"
        \* C11-contig-empty: is_contiguous() of an array without elements / with such a sub-array binds a reference to null
        ELSE IF r.abort /\ r.op.k = "NContig" /\ (SizeAll(X) = 0 \/ HasEmptyRow(X)) THEN "C11-contig-empty"
+       \* C11-fullptr-empty: get_full_data_ptr() / get_const_full_data_ptr() of an array without elements (reached by read_data
+       \* recursing into an empty sub-array, or directly) bind a reference to null
+       ELSE IF r.abort /\ r.op.k \in {"NReadData", "NFullPtr", "NFullPtrW"} /\ (SizeAll(X) = 0 \/ HasEmptyRow(X)) THEN "C11-fullptr-empty"
        \* C11-regrow-stale: sub-arrays re-exposed by resize / grow / growing arithmetic keep earlier contents
        ELSE IF ~r.abort /\ ~r.err /\ r.op.k \in ({"NResize", "NGrow", "NVOpM"} \cup NVecOps) /\ NEnabled(DimOf(r.ty), st, r.op)
                /\ StaleOnly(X, NApply(DimOf(r.ty), st, r.op).st.s[r.op.t], r.post.s[r.op.t].t) THEN "C11-regrow-stale"
